@@ -333,33 +333,44 @@ func c20(w *core.World, r *core.Report) {
 
 	r.Rule("R20.8", "bidirectional replay: a BUSYKEY reply to RESTORE is tolerated only under the ignore policy", 1)
 	if g := fn(w, r, "(*syncer.RedisOutput).validateBisyncRdbExecReplies"); g != nil {
-		n, okAll := 0, true
-		var pos token.Pos = g.Pos()
-		for _, b := range g.Blocks {
-			busy, ignore := false, false
-			for _, fct := range core.FactsAt(b) {
-				if c, isCall := core.Unwrap(fct.Cond).(*ssa.Call); isCall && fct.Val && core.ResolveCall(c).Name == "syncer.isRestoreBusyKeyError" {
-					busy = true
-				}
-				if cmp, isCmp := core.AsCmp(fct.Cond, fct.Val); isCmp && cmp.Op == token.EQL {
-					x, y := core.Unwrap(cmp.X), core.Unwrap(cmp.Y)
-					if s, isS := core.ConstString(x); isS && s == "ignore" {
-						x, y = y, x
-					}
-					if s, isS := core.ConstString(y); isS && s == "ignore" && core.IsFieldLoad(x, "", "KeyExists") {
-						ignore = true
-					}
-				}
-			}
-			if !busy {
-				continue
-			}
-			n++
-			if !ignore {
-				okAll, pos = false, b.Instrs[0].Pos()
+		// the loop over the EXEC replies: the one that asks whether a reply is an error reply
+		var ta *ssa.TypeAssert
+		for _, in := range core.OwnInstrs(g) {
+			if t, ok := in.(*ssa.TypeAssert); ok && t.CommaOk && strings.HasSuffix(core.TypeName(t.AssertedType), "common.RedisError") && core.LoopHeadOf(t.Block()) != nil {
+				ta = t
 			}
 		}
-		r.Check(okAll && n >= 1, "validateBisyncRdbExecReplies/busykey-only-under-ignore", pos, "a RESTORE that answers BUSYKEY means the key appeared after the existence probe; swallowing that reply is the ignore policy. Under 'error' it must fail the replay (under 'replace' it cannot occur): tolerated in %d block(s), all under KeyExists == \"ignore\": %v", n, okAll)
+		if ta == nil {
+			r.Undecided("validateBisyncRdbExecReplies/busykey-only-under-ignore", g.Pos(), "the loop that inspects the EXEC replies was not found")
+		} else {
+			head := core.LoopHeadOf(ta.Block())
+			isErrReply := func(v ssa.Value) bool {
+				e, ok := core.Unwrap(v).(*ssa.Extract)
+				return ok && e.Index == 1 && e.Tuple == ssa.Value(ta)
+			}
+			isBusy := func(v ssa.Value) bool {
+				c, ok := core.Unwrap(v).(*ssa.Call)
+				return ok && core.ResolveCall(c).Name == "syncer.isRestoreBusyKeyError"
+			}
+			isPolicy := func(v ssa.Value) bool { return core.IsFieldLoad(core.Unwrap(v), "", "KeyExists") }
+			n, bad := 0, ""
+			var pos token.Pos = ta.Pos()
+			okEnum := core.EnumPathsN(head, 0, 100000, 1, func(p *core.Path) {
+				if !p.Closed || !pathAssumed(p, isErrReply, true) {
+					return
+				}
+				// an error reply after which the loop goes on: tolerated
+				n++
+				if !pathAssumed(p, isBusy, true) || !p.Holds(token.EQL, isPolicy, isConstStr("ignore")) {
+					bad = "an error reply of the transaction is passed over on a path that did not establish: the policy is 'ignore' and the reply is RESTORE's BUSYKEY"
+				}
+			})
+			if !okEnum {
+				r.Undecided("validateBisyncRdbExecReplies/busykey-only-under-ignore", pos, "too many paths")
+			} else {
+				r.Check(bad == "" && n >= 1, "validateBisyncRdbExecReplies/busykey-only-under-ignore", pos, "a RESTORE that answers BUSYKEY means the key appeared after the existence probe; swallowing that reply is the ignore policy. Under 'error' it must fail the replay (under 'replace' it cannot occur): %s (tolerating paths=%d)", bad, n)
+			}
+		}
 	}
 }
 
@@ -384,11 +395,45 @@ func stringSwitchCases(w *core.World, pkg, recv, name, field string) [][]string 
 }
 
 func rulePolicySet(w *core.World, r *core.Report) {
-	sets := stringSwitchCases(w, "pkg/rdbrestore", "RdbReplay", "Replay", "KeyExists")
+	// every place of the snapshot replay package that dispatches on the policy: the comparisons of one
+	// loaded KeyExists value with constants form one dispatch (a switch or an if-chain, in Replay or in a
+	// method split off from it)
+	groups := map[ssa.Value]map[string]bool{}
+	var order []ssa.Value
+	for _, g := range w.FuncsIn("pkg/rdbrestore") {
+		for _, in := range core.OwnInstrs(g) {
+			b, isB := in.(*ssa.BinOp)
+			if !isB || (b.Op != token.EQL && b.Op != token.NEQ) {
+				continue
+			}
+			x, y := b.X, b.Y
+			if _, isC := core.ConstString(x); isC {
+				x, y = y, x
+			}
+			cs, isC := core.ConstString(y)
+			if !isC || !core.IsFieldLoad(core.Unwrap(x), "RdbReplay", "KeyExists") {
+				continue
+			}
+			k := core.Unwrap(x)
+			if groups[k] == nil {
+				groups[k] = map[string]bool{}
+				order = append(order, k)
+			}
+			groups[k][cs] = true
+		}
+	}
+	var sets [][]string
+	for _, k := range order {
+		var one []string
+		for c := range groups[k] {
+			one = append(one, c)
+		}
+		sort.Strings(one)
+		sets = append(sets, one)
+	}
 	want := "error,ignore,replace"
-	ok := len(sets) == 2
+	ok := len(sets) >= 2
 	for _, s := range sets {
-		sort.Strings(s)
 		if strings.Join(s, ",") != want {
 			ok = false
 		}
